@@ -67,6 +67,10 @@ func suiteC18(cfg Config, res *Result) {
 			seqs = append(seqs, vArr(xs...))
 		}
 	}
+	// multi-byte characters in front of ASCII ones: a character index is not a byte offset
+	for _, s := range []string{"äbc", "héllo wörld", "日本x", "x日", "aé", "éa", "ß", "€uro", "naïve ü"} {
+		seqs = append(seqs, vStr(s))
+	}
 	seqs = append(seqs, vInt(5), vNil(), vList("any", vStr("x"), vInt(2), vNil()))
 	bounds := []string{""}
 	for i := -8; i <= 8; i++ {
@@ -82,7 +86,7 @@ func suiteC18(cfg Config, res *Result) {
 		for _, bad := range []string{"", "1", "1:2:3", "abc"} {
 			add("slice", v, vStr(bad))
 		}
-		for _, f := range []string{"first", "last", "length", "make_list", "join", "wordcount"} {
+		for _, f := range []string{"first", "last", "length", "make_list", "join", "wordcount", "random"} {
 			add(f, v, vNil())
 		}
 		for _, sep := range []string{", ", "", "-", "ab"} {
@@ -138,6 +142,13 @@ func suiteC18(cfg Config, res *Result) {
 		add("integer", a, vNil())
 		add("float", a, vNil())
 		add("length", a, vNil())
+	}
+	// get_digit: whole numbers of any size, and texts that merely look like numbers
+	for _, a := range []VT{vStr("98765432109876543210987654321"), vStr("-98765432109876543210987654321"), vStr("18446744073709551615"), vUint(18446744073709551615), vUint(9223372036854775808),
+		vInt(9223372036854775807), vInt(-9223372036854775808), vStr("+5"), vStr("5+"), vStr(" 5"), vStr("5 "), vStr("0x10"), vStr("1e3"), vStr("٣٤"), vStr("-"), vStr("--5"), vStr("007"), vStr("1_000"), vStr("12.0")} {
+		for _, d := range []int64{-1, 0, 1, 2, 3, 19, 20, 21, 29, 30} {
+			add("get_digit", a, vInt(d))
+		}
 	}
 	// random extras
 	nRand := 2000
@@ -378,6 +389,48 @@ func c18Oracle(c fcase) string {
 		default:
 			if out != string(rs[:n]) {
 				return "not the first n characters"
+			}
+		}
+	case "first", "last", "random":
+		// characters of a text, elements of a sequence
+		switch {
+		case c.v.K == "str" && utf8.ValidString(c.v.S) && c.v.S != "":
+			rs := []rune(c.v.S)
+			switch c.f {
+			case "first":
+				if out != string(rs[0]) {
+					return fmt.Sprintf("the first character is %q", string(rs[0]))
+				}
+			case "last":
+				if out != string(rs[len(rs)-1]) {
+					return fmt.Sprintf("the last character is %q", string(rs[len(rs)-1]))
+				}
+			default:
+				if len([]rune(out)) != 1 || !strings.Contains(c.v.S, out) {
+					return "random: not one of the text's characters"
+				}
+			}
+		case (c.v.K == "list" || c.v.K == "arr") && len(c.v.Items) > 0 && (c.v.Elem == "int" || c.v.Elem == "string"):
+			str := func(v VT) string { return toValue(v).String() }
+			switch c.f {
+			case "first":
+				if out != str(c.v.Items[0]) {
+					return "not the first element"
+				}
+			case "last":
+				if out != str(c.v.Items[len(c.v.Items)-1]) {
+					return "not the last element"
+				}
+			default:
+				found := false
+				for _, it := range c.v.Items {
+					if str(it) == out {
+						found = true
+					}
+				}
+				if !found {
+					return "random: not one of the elements"
+				}
 			}
 		}
 	case "length":
